@@ -47,6 +47,8 @@ def mutants(prog):
     from .common import source_sub
     L = "deepali.losses.functional"
     specs = [
+        ('rand_sample: mask of the first image for all', 'deepali.core.image', 'rand_sample', 'mask = mask.flatten(2).squeeze(1).expand(shape[0], numel)', 'mask = mask.flatten(2)[0].expand(shape[0], numel)', 'T16.rand-sample'),
+        ('grid_sample_mask: zero counts as inside', 'deepali.core.image', 'grid_sample_mask', 'data > threshold', 'data >= threshold', 'T16.sample-mask'),
         ("masked mean counts unexpanded mask", L, "reduce_loss", "numel = mask.expand_as(loss).sum()", "numel = mask.sum()", "T16."),
         ("masked mean divides by all", L, "reduce_loss", "numel = mask.expand_as(loss).sum()", "numel = loss.numel()", "T16."),
         ("mean is sum", L, "reduce_loss", "return loss.mean() if reduction == 'mean' else loss.sum()", "return loss.sum()", "T16."),
